@@ -4,3 +4,5 @@ import PercevalModel.Found.Memo
 import PercevalModel.Proto
 import PercevalModel.Props.C01
 import PercevalModel.Found.SM
+import PercevalModel.Found.Fock
+import PercevalModel.Props.C02
